@@ -407,6 +407,18 @@ def family_ic_panic():
     return out
 
 
+def family_grow():
+    """an interceptor enlarges the message: the size limit applies to what would be sent"""
+    out = []
+    for v in ("0.10.0.0", "0.11.0.0"):
+        for size, grow in ((120, 150), (150, 100), (60, 30)):
+            cfg = dict(version=v, retryMax=1, leaders=[1], nbrokers=1, maxMsgBytes=200, interceptors=1, growIc=grow)
+            steps = [{"op": "submit", "id": 1, "part": 0, "size": size}, {"op": "submit", "id": 2, "part": 0, "size": 20},
+                     {"op": "wait_outcomes", "n": 2, "ms": 3000}, {"op": "close"}]
+            out.append(sc("grow-%d+%d-%s" % (size, grow, v), "grow", cfg, steps))
+    return out
+
+
 def family_timer():
     """P6b: Flush.Frequency is the only trigger and a burst ends one message past a limit: the message that
     started the fresh buffer must still go out when the timer fires, without further input"""
@@ -443,7 +455,7 @@ def family_limits():
                          {"op": "submit", "id": 5, "part": 0, "size": limit // 2 + d},
                          {"op": "wait_outcomes", "n": 5, "ms": 4000}, {"op": "close"}]
                 out.append(sc("lim-bytes%d%+d-%s" % (limit, d, v), "limits", cfg, steps, pl))
-        for trig in (dict(), dict(flushMsgs=1), dict(flushBytes=1), dict(flushFreqMs=40)):
+        for trig in (dict(), dict(flushMsgs=1), dict(flushBytes=1), dict(flushFreqMs=40), dict(flushMaxMsgs=5)):
             cfg = dict(version=v, retryMax=1, leaders=[1], nbrokers=1, **trig)
             steps = submits([(1, 0)]) + [{"op": "must_req", "n": 1, "ms": 2500}, {"op": "wait_outcomes", "n": 1, "ms": 2000}, {"op": "close"}]
             out.append(sc("lone-%s-%s" % ("".join(sorted(trig)) or "none", v), "lone", cfg, steps))
